@@ -26,7 +26,7 @@ ASSUMPTIONS = [
 ]
 COMPONENTS = {"real": ["pyxel", "dask.local.get_async", "xarray", "numpy"], "stub": ["thread pool (SimPool)", "process pool semantics", "queue wait"]}
 BUDGET = {"quick": {"n": 96, "wall": 100, "determinism": 4}, "thorough": {"n": 8000, "wall": 1500, "determinism": 12}}
-REQUIRED_REACH = ["variant:calibration", "island_creation_order_varied", "contested_runs", "preempted_runs", "procs_runs", "seed_lock_contended", "reordered_completion"]
+REQUIRED_REACH = ["readout_times_swept", "variant:calibration", "island_creation_order_varied", "contested_runs", "preempted_runs", "procs_runs", "seed_lock_contended", "reordered_completion"]
 
 
 def generate(rng, tier):
@@ -37,6 +37,11 @@ def generate(rng, tier):
         scn["sched_b"] = {"policy": rng.choice(["fifo", "lifo", "random", "preempt", "pct"]), "workers": rng.choice([1, 2, 3, 8, 16]), "preempt_p": 0.2, "pct_d": 2, "sim_seed": rng.randrange(2**31)}
         return scn
     scn = obs.gen_observation(rng, tier)
+    if scn["mode"]["obs_mode"] == "product" and rng.random() < 0.2:
+        # the readout time itself is one of the swept parameters (one readout per run)
+        scn["readout"] = {"times": [1.0], "start_time": 0.0, "non_destructive": scn["readout"]["non_destructive"]}
+        scn["mode"]["parameters"] = [p for p in scn["mode"]["parameters"] if p.get("enabled", True)][:1]
+        scn["mode"]["parameters"].append({"key": "observation.readout.times", "values": rng.sample([2.0, 4.0, 7.5, 11.0], rng.randint(2, 3)), "enabled": True})
     return scn
 
 
@@ -128,6 +133,8 @@ def execute(scn, forced=None):
     stats["policy:" + scn["sched"]["policy"]] = 1
     stats["workers:%d" % scn["sched"]["workers"]] = 1
     stats["mode:" + om] = 1
+    if any(p["key"] == "observation.readout.times" for p in scn["mode"]["parameters"]):
+        stats["readout_times_swept"] = 1
 
     if isinstance(par["exc"], Exception) and type(par["exc"]).__name__ == "SimDeadlock":
         viol.append({"clause": "C07.liveness", "signature": f"C07.liveness@{feat}", "detail": str(par["exc"])})
